@@ -5,6 +5,7 @@ from common import case_line, build_tuc, build_tuc_nofast, run_cli
 from gen import bytes_upto
 
 LEVEL = "proof"
+LYING = lambda a: not any(x in a for x in ("-b", "-l", "-c", "-M"))        # which command lines of cases.rand_cli the lying-size stdin scenario keeps
 COUNTS = ["f"]        # modes of cases.count_thresholds
 BIG_IO = lambda a: "-f" in a and not any(x in a for x in ("-M", "-g", "-p", "-m", "-r", "--json"))        # which command lines of cases.rand_cli the large-input stream keeps
 
